@@ -11,7 +11,7 @@ from props import gen_harness as G
 
 ID = "C11"
 LEVEL = "proof"
-CONTRACT_MODULES = ["contracts.status", "contracts.aliases", "contracts.registry"]
+CONTRACT_MODULES = ["contracts.status", "contracts.aliases", "contracts.registry", "contracts.writeset"]
 EXPLANATION = ("ExceptionsEmitter._update_registry is proved (loop invariant in set algebra over the registry's key sequence) to write back every "
                "other client's entry unchanged and to return a list covering every code of every registered client; _generate_for_codes is "
                "proved to render one alias per 4xx/5xx code of its argument; emit is proved to regenerate from exactly that union whenever the "
